@@ -20,14 +20,20 @@ MANIFEST = {
           'C07_duplicate_commit_rejected, C07_commit_exactly_once, C07_dst_before_src (sync_migration_state under ANY scripted call faults: the source is '
           'contacted only after the commit request was sent and the destination installed cluster metadata at least as new as the post-commit view), C07_two_rounds (bound TWO: one migration-sync round then one meta-sync round => every '
           'reported pending migration committed exactly once and every listed proxy holds the post-commit view), C13_reconverge (no assumption on the '
-          'history; served epochs above installed ones => one round adopts the recovered view).  The broker is abstracted to `served : time -> addr -> '
-          'option (epoch * content)`; the ONLY facts assumed are the two hypotheses served_mono_prop / served_same_prop, which are C04\'s theorems about '
-          'Model/Broker.v (instantiation by C04, not done in this file) and which the check also tests on every implementation run.  The model is tied to '
+          'history; served epochs above installed ones => one round adopts the recovered view).  In these theorems the broker is abstracted to `served : '
+          'time -> addr -> option (epoch * content)` with the two hypotheses served_mono_prop / served_same_prop (also tested on every implementation run).  '
+          'BROKER INSTANCE (Proofs/CtrlProofsBroker*.v): the hypotheses are discharged on Model/Broker.v with C04 - served_of s0 ops lim t a = (vp_epoch v, '
+          'content_id v) for view_proxy lim (Broker.run s0 (firstn t ops)) a = Some (Some v), any store s0 with epoch_inv, any operation list without accepted '
+          'Restore (ok_ops), any migration limit; C07_served_of_broker_facts proves both hypotheses from history_views / same_epoch_same_content_lemma; content_id '
+          'is an injective identifier of everything but the epoch (C07_content_id_injective; std++ Countable encode of the flattened view; Ctrl.v keeps content '
+          'type N).  C07_never_older_broker, C07_converge_one_round_broker, C07_two_rounds_broker and C13_reconverge_broker (store restored from any snapshot with '
+          'epoch_inv, recover_service with m >= every installed epoch of the listed proxies, then any ok_ops history; premise obtained from stays_above_general) are '
+          'therefore theorems about broker-model histories with no hypothesis on `served` left.  The model is tied to '
           'the code by running the real coordinator rounds, a real MetaStore and real proxies under the same fault scripts and comparing, per round, the '
           'observable event trace (views fetched, calls reaching proxies with epoch and reply, commits reaching the broker with result, reports, restarts), '
           'the number of call boundaries consumed, every proxy\'s GETEPOCH and the hashes of its cluster / replication state (UMCTL INFO, INFOREPL), the '
           'broker\'s pending migrations and the number of successful commits.',
-  'note': 'Proof at model level; closed under the global context. PARTIAL for real concurrency: the four coordinator loops, their 1-second timers and the '
+  'note': 'Proof at model level; closed under the global context. The *_broker theorems instantiate time as "number of broker operations applied" (a successful commit is one operation of ops); the pending-migration set of Ctrl.v stays abstract (its link to the Broker model\'s migrating entries is exercised by the correspondence check, not proved). PARTIAL for real concurrency: the four coordinator loops, their 1-second timers and the '
           'join_all over a batch of ten proxies are replaced by explicit interleaving of whole calls (with the harness fakes no call is ever pending, so a '
           'batch runs in list order); the HTTP layer between coordinator and broker is replaced by a fake that mirrors its status mapping (200 and 404 => Ok; '
           'pinned textually); the failure detector / handler rounds only appear as broker operations.  "Destination before source" is proved and monitored '
@@ -41,7 +47,8 @@ MANIFEST = {
  }
 
 TRUSTED = ['Coq 8.16.1 kernel (coqc; coqchk in the thorough tier); no axioms (Print Assumptions: closed)',
-           'hypotheses of the theorems: served_mono_prop, served_same_prop = C04 about the broker (proved elsewhere over Model/Broker.v; tested here on every run)',
+           'abstract theorems: hypotheses served_mono_prop, served_same_prop; discharged for the Broker model in the *_broker theorems (C04 + C13 lemmas of Proofs/BrokerEpoch*.v) and tested here on every implementation run',
+           'std++ (countable: encode / encode_inj) in Proofs/CtrlProofsBrokerEnc.v only, axiom-free',
            'extraction with ExtrOcamlBasic only + ocaml/vio.ml, d_ctrl.ml, driver_lib.ml',
            'harness/ctrl/src/dom.rs: fake MetaDataBroker / MetaManipulationBroker / RedisClientFactory (fault injection), fake Redis, canonical forms of a view and of UMCTL INFO / INFOREPL',
            'hooks: undermoon::coordinator::verif (H2), undermoon::broker::verif (H1)',
